@@ -47,8 +47,6 @@ func VerifConsts() map[string]int {
 	}
 }
 
-func VerifDecodeFormat0(raw uint) (Level, Mask, bool) { return decodeFormat0(raw) }
-func VerifDecodeFormat(img *bitmap.Image) (Level, Mask, error) { return decodeFormat(img) }
 func VerifCalcVersion(level Level, segs []Segment) Version { return calcVersion(level, segs) }
 func VerifSegLength(s *Segment, v Version) int            { return s.length(v) }
 func VerifNewQR(level Level, data []byte) (*QRCode, error) { return newQR(level, data) }
